@@ -6,7 +6,7 @@ use vp::engine::*;
 static ALLOC: vp::alloc::Counting = vp::alloc::Counting;
 
 /// Properties whose cases are also run under the build without debug assertions.
-const UNCHECKED_TOO: &[&str] = &["C01", "C02", "C06", "C07", "C08", "C12", "C20"];
+const UNCHECKED_TOO: &[&str] = &["C01", "C02", "C03", "C06", "C07", "C08", "C12", "C13", "C15", "C20"];
 
 fn unchecked_binary() -> Option<std::path::PathBuf> {
     let exe = std::env::current_exe().ok()?;
